@@ -20,6 +20,11 @@ def check(ctx):
   a = prog.func(A, 'ApertureBalancerSink._AddSink')
   # partition rules shared with C05
   c05.r3(ctx)
+  ctx.rule('C05.R2', 'shared with C05: an endpoint that is already a member is never handed to _AddSink again (the aperture would hold it in the heap and in the idle set at once)')
+  c05.r2(ctx)
+  from . import c03 as _c03
+  ctx.rule('C03.R5', 'shared with C03: the sifts respect the bound they are given (removal parks the outgoing node behind the bound; a sift that looks past it swaps the parked node back and a different member is evicted: it is then neither active nor idle)')
+  _c03.r5(ctx)
   r1_pending(ctx)
   r2(ctx)
   r3(ctx)
